@@ -89,6 +89,10 @@ CONFIGS = {
 }
 
 
+# VERIF_THOROUGH_SCALE=<f> scales the sampled volumes of the C08 / C17 thorough tiers (default 1: full volume); used to
+# walk through every thorough-tier code path quickly
+THOROUGH_SCALE = float(os.environ.get("VERIF_THOROUGH_SCALE", "1") or 1)
+
 # everything the four quick tiers build (the monitors - Miri, ASan - are built by the checks that use them)
 QUICK_CONFIGS = ["sse2-rel", "sse2-dbg", "scalar", "scalar-dbg", "coresimd", "coresimd-dbg", "native-fast", "nostd", "nostd-dbg",
                  "sse2-assert", "sse2-dbg-assert", "cuda", "scalar-cuda", "nocheck", "int-rel", "int-dbg"]
@@ -1144,6 +1148,8 @@ def check_c08(tier, seed):
             "thorough": {"sse2-rel": 6000000, "sse2-dbg": 500000, "coresimd": 6000000, "native": 6000000, "sse2-assert": 3000000, "native-fast": 3000000, "sse2-dbg-assert": 300000, "nostd": 2000000, "libm": 1000000, "cuda": 1000000}}[tier]
     cfg_table, cfg_extra = cfg_coverage(cfgs, exempt=["scalar-math"])
     cfgs = cfgs + cfg_extra
+    if tier == "thorough" and THOROUGH_SCALE != 1.0:
+        runs = {k: max(1000, int(v * THOROUGH_SCALE)) for k, v in runs.items()}
     build_all(cfgs)
     det = selftest_determinism("sse2-rel", seed, [["c08", "--runs", 2000]], seeds=4 if tier == "quick" else 32)
     results = []
@@ -1210,7 +1216,7 @@ def check_c17(tier, seed):
     cfg_table, cfg_extra = cfg_coverage(cfgs)
     cfgs = cfgs + cfg_extra
     build_all(cfgs)
-    hist = {"quick": 1500, "thorough": 20000}[tier]
+    hist = {"quick": 1500, "thorough": max(1500, int(20000 * THOROUGH_SCALE))}[tier]
     det = selftest_determinism("sse2-rel", seed, [["c17", "--histories", 60, "--no-grid"]], seeds=2 if tier == "quick" else 16)
     results, results_ff = [], []
     for c in cfgs:
@@ -1225,7 +1231,8 @@ def check_c17(tier, seed):
     if tier == "thorough":
         for mc in ["miri", "miri-scalar", "miri-coresimd"]:
             try:
-                r = run_miri(mc, ["c17", "--seed", seed, "--histories", 3, "--workers", 1, "--no-grid"], groups=[[t] for g in TYPE_GROUPS for t in g][:64])
+                # (grouped types, format-free: formatting machinery and one interpreter process per type cost most of an hour)
+                r = run_miri(mc, ["c17", "--seed", seed, "--histories", 3, "--workers", 1, "--no-grid", "--no-fmt"], groups=TYPE_GROUPS)
                 monitors[mc] = {"histories": r["evaluations"], "ub_reports": 0}
                 evals += r["evaluations"]
                 for v in r["violations"]:
